@@ -200,6 +200,7 @@ def engine_family(ctx, prop, module, cfg, engine, obs_props, simulate=None):
 def check_C01(ctx):
     vt.tlc_design(ctx, 'MatcherMC', label='matchers: C01/C02/C04 design invariants over the perturbation lattice')
     scen = vt.tlc_generate(ctx, 'GenWire', 'C01', 0)
+    scen += vt.tlc_generate(ctx, 'GenRun', 'C01', 0)       # request level: the SYN run of a prefer_sack fallback
     wire_family(ctx, 'C01', scen,
                 rule='one scenario per (variant, strict/relaxed, identifier base, TTL range, single-field perturbation or '
                      'unsent/early/looped genuine packet, injection instant) enumerated by TLC from GenWire!C01All; executed on the real '
